@@ -23,8 +23,11 @@ The system is a product of independent readers: a `write` acts on every reader, 
 exactly one.  `rstep` is the one-reader machine; `step` lifts it to the list of readers.
 
 PLAY  = `createWriter` … `readerSetActive`          (one event `play`: nothing can be pushed in between)
-PAUSE = `destroyWriter` (`pclose`: the queue is discarded, pushes are swallowed from here on)
-        then `readerSetInactive` (`pinact`)           — two events, writes may fall in between
+PAUSE = `destroyWriter`, which is `writer.Close()` — `ring.Close()` discards the queue (`pclose`), but the
+        closed ring still takes pushes (accepted while it has room, refused when full; nobody pulls them)
+        until the consumer goroutine has exited and `writer = nil` (`pnil`: the ring and what it holds
+        are dropped; pushes are swallowed without error from here on) —
+        then `readerSetInactive` (`pinact`)           — three events, writes may fall in between
 close = `readerSetInactive`, `readerRemove`, `destroyWriter`; the client stops reading (`leave`)
 
 History (ghost) variables, never read by the transitions: `Frame.media`, `Frame.wid`, `Reader.nw`,
@@ -70,7 +73,8 @@ def rewrite (ssrc : Nat) (p : Pkt) : Pkt := { p with ssrc := ssrc }
 inductive Status where
   | setup      -- Initial / PrePlay (also: paused)
   | playing    -- in activeUnicastReaders, writer present
-  | closing    -- PAUSE in progress: writer destroyed, still in activeUnicastReaders
+  | ringClosed -- PAUSE in progress: `ring.Close()` done, `writer` still set, still in activeUnicastReaders
+  | noWriter   -- PAUSE in progress: `writer == nil`, still in activeUnicastReaders
   | gone       -- session closed
 deriving DecidableEq, Repr, Inhabited
 
@@ -129,11 +133,11 @@ def demux (cfg : Cfg) (x : Reader) (f : Frame) : Option (Nat × Nat) :=
 
 /-- is the write fanned out to this reader? -/
 def fanned (x : Reader) (m : Nat) : Bool :=
-  (x.status == .playing || x.status == .closing) && x.meds.contains m
+  (x.status == .playing || x.status == .ringClosed || x.status == .noWriter) && x.meds.contains m
 
 def outcome (cfg : Cfg) (x : Reader) (m : Nat) : Outcome :=
   if !fanned x m then .skip
-  else if x.status == .closing then .dropped
+  else if x.status == .noWriter then .dropped
   else if x.queue.length < cfg.cap then .accepted
   else .refused
 
@@ -154,6 +158,7 @@ inductive Ctl where
   | setup (m : Nat)
   | play
   | pclose
+  | pnil
   | pinact
   | leave
   | consume          -- the session's writer goroutine pops one item and sends it
@@ -184,8 +189,11 @@ def rctl (cfg : Cfg) (x : Reader) : Ctl → Reader
     if x.status == .setup && !x.meds.isEmpty then { x with status := .playing, queue := [] } else x
   | .pclose =>
     if x.status == .playing then
-      { x with status := .closing, disc := x.disc ++ x.queue.map Frame.deliv, queue := [] } else x
-  | .pinact => if x.status == .closing then { x with status := .setup } else x
+      { x with status := .ringClosed, disc := x.disc ++ x.queue.map Frame.deliv, queue := [] } else x
+  | .pnil =>
+    if x.status == .ringClosed then
+      { x with status := .noWriter, disc := x.disc ++ x.queue.map Frame.deliv, queue := [] } else x
+  | .pinact => if x.status == .noWriter then { x with status := .setup } else x
   | .leave =>
     if x.status == .gone then x
     else if x.udp then { x with status := .gone, disc := x.disc ++ x.queue.map Frame.deliv, queue := [] }
@@ -203,7 +211,7 @@ def rctl (cfg : Cfg) (x : Reader) : Ctl → Reader
       | none => { x with wire := w }
       | some (m, pt) => { x with wire := w, cbs := x.cbs ++ [⟨m, pt, f.pkt, f.wid⟩] }
   | .arrive k =>
-    if !x.udp || x.status == .gone then x else
+    if !x.udp then x else    -- (a datagram in flight may arrive after the server-side session is gone)
     match x.wire[k]? with
     | none => x
     | some f => rarrive cfg x f
